@@ -288,7 +288,19 @@ func init() {
 				}
 				return strings.IndexAny(s.s, chars)
 			}
-			panic(unsupported("IndexAny with non-ASCII chars on symbolic string"))
+			// A valid non-ASCII character occurs as a rune exactly where its UTF-8 encoding occurs
+			// as a byte sequence (its lead byte is never a continuation byte, so no preceding -
+			// valid or invalid - sequence can swallow it): IndexAny is the least Index over the set.
+			if last || strings.ContainsRune(chars, utf8.RuneError) || !utf8.ValidString(chars) {
+				panic(unsupported("LastIndexAny / IndexAny with U+FFFD or invalid UTF-8 in the set on a symbolic string"))
+			}
+			best := -1
+			for _, r := range chars {
+				if i := ex.strIndex(s, ex.strC(string(r))); i >= 0 && (best < 0 || i < best) {
+					best = i
+				}
+			}
+			return best
 		}
 		if s.conc {
 			if last {
